@@ -567,6 +567,8 @@ class PenlogReader:
 
     def _parse_file_structure(self) -> None:
         old_offset = self.file_mmap.tell()
+        self.file_mmap.seek(0)
+        self._record_offsets = []
 
         while True:
             self._record_offsets.append(self.file_mmap.tell())
